@@ -1080,6 +1080,8 @@ class Interp:
         def with_f(s2, fv):
             if isinstance(fv, Sym) and isinstance(f, ast.Name):
                 fv = _Origin(fv.t, fv.hint, f.id)
+            elif isinstance(fv, Sym) and isinstance(f, ast.Attribute):
+                fv = _Origin(fv.t, fv.hint, "." + f.attr)
             def do(s3, args, kwargs):
                 if isinstance(f, ast.Name) and self.cur is not None and not fr.spec:
                     for callee, nm, expr in self.cur.site_asserts:
@@ -1345,6 +1347,12 @@ class Interp:
         if _is_generator(fnode):
             if f.kind == "contextmanager" or any(getattr(d, "id", getattr(d, "attr", None)) == "contextmanager" for d in fnode.decorator_list):
                 return k(st, self.B.CMV(f, list(args), dict(kwargs)))
+            gcls = next((c_ for c_ in ("types.GeneratorType", "builtins.generator") if c_ in self.w.class_ids), None)
+            if "<locals>" in f.q and not fr.spec and gcls:
+                # calling a generator function runs none of its body: the result is a fresh generator object.
+                # What the generator yields later is NOT verified here (its consumer sees an opaque iterable).
+                self.stats["builtins_used"].add(f"generator {f.q.split('.')[-1]}(): fresh lazy generator object; its body (run by the consumer) is outside the obligations")
+                return k(st, Sym(mk_ref(self.alloc(st, gcls)), gcls))
             raise Unsupported(f"call of generator function {f.q}")
         caller_env = st.env
         def run(s2, env2):
